@@ -265,6 +265,7 @@ impl<'a, W: Write + 'a> ser::Serializer for &'a mut Serializer<W> {
                 }
                 let buf = v.to_be_bytes();
                 self.writer.write_all(&buf)?;
+                self.non_native_type = None;
             }
             _ => unreachable!(),
         }
